@@ -4,6 +4,7 @@
    /repo on every run; Model/FillRules.v holds the required policy per operation. *)
 From Coq Require Import ZArith List Bool String.
 From Verif Require Import Py PyExt PyFill S_fill FillRules FillRulesP.
+From Verif Require Shape COO.
 Import ListNotations.
 Open Scope Z_scope.
 Open Scope string_scope.
@@ -51,22 +52,31 @@ Theorem site_ok_sound : forall table pol s, site_ok table pol s = true -> site_s
 Proof. exact site_ok_sound_proof. Qed.
 Print Assumptions site_ok_sound.
 
-(* ---- the generated table
-   Full statement:   forallb (site_ok_req sites) sites = true
-   (every operation of the source has the guards / fill passing that its required policy needs).
-   It is FALSE of the code as it stands: `diagonal` (D5) and `diagonalize` (D14) build their result without
-   fill_value and without a guard, see policy_refuted.  The proved part excludes exactly the rows named in
-   Model/FillRules.v:exceptions.  After a repair of /repo, delete the name there: both theorems below keep
-   their statements. *)
-Theorem policy_respected_partial : forallb (site_ok_req sites) sites_minus_exceptions = true.
-Proof. exact policy_respected_partial_proof. Qed.
-Print Assumptions policy_respected_partial.
+(* ---- why a position-moving operation must pass the operand's fill: given the structural facts of C02/C05/C08/C09
+   (stored part right; unstored result positions come from unstored operand positions) the result is right at EVERY
+   position when the fill is passed, and passing it is necessary as soon as one result position is unstored.
+   Polymorphic in the value type: covers every dtype and the fills NaN / +-inf / -0.0 as tokens. *)
+Theorem preserves_fill_right :
+  forall (V : Type) (x r : COO.coo V) (src : Shape.idx -> Shape.idx),
+    stored_right x r src -> unstored_from_unstored x r src -> COO.c_fill r = COO.c_fill x ->
+    forall i, COO.den r i = COO.den x (src i).
+Proof. exact preserves_fill_right_proof. Qed.
+Print Assumptions preserves_fill_right.
 
-(* each excepted row fails its obligation AND, run on an operand with fill 3, returns fill 0 without raising *)
-Theorem policy_refuted :
-  forallb (fun op => exception_fails op && exception_silently_wrong op) exceptions = true.
-Proof. exact policy_refuted_proof. Qed.
-Print Assumptions policy_refuted.
+Theorem preserves_fill_necessary :
+  forall (V : Type) (x r : COO.coo V) (src : Shape.idx -> Shape.idx),
+    unstored_from_unstored x r src ->
+    (exists i, COO.lookup (COO.entries r) i = None) ->
+    (forall i, COO.den r i = COO.den x (src i)) -> COO.c_fill r = COO.c_fill x.
+Proof. exact preserves_fill_necessary_proof. Qed.
+Print Assumptions preserves_fill_necessary.
+
+(* ---- the generated table: every operation of the source has the guards / fill passing that its required policy needs.
+   (Until fix 7b39a89 this failed for `diagonal` (D5) and `diagonalize` (D14); Proofs/FillRulesP.v keeps the old
+   `diagonal` row as an example of a row that fails.) *)
+Theorem policy_respected : forallb (site_ok_req sites) sites = true.
+Proof. exact policy_respected_proof. Qed.
+Print Assumptions policy_respected.
 
 (* every generated row has a required policy; no required policy names a vanished operation *)
 Theorem policy_total :
@@ -126,16 +136,15 @@ Theorem maybe_densify_rule :
 Proof. exact maybe_densify_rule_proof. Qed.
 Print Assumptions maybe_densify_rule.
 
-(* ---- the fill correction of an additive reduction (SparseArray.reduce with np.add)
-   Full statement: forall stored fill n, length stored <= n -> sum_group_impl stored fill n = sum_group_spec stored fill n.
-   FALSE of the code as it stands (finding D23: inf * 0 = nan for a complete group), see the refutation. *)
-Theorem sum_fill_correction_partial :
-  forall stored fill n, (List.length stored <= n)%nat -> d23_clause stored fill n = true ->
+(* ---- the fill correction of an additive reduction (SparseArray.reduce with np.add), for every fill value including
+   +-inf and NaN and for complete groups (until fix f1f8980 the latter gave NaN: finding D29) *)
+Theorem sum_fill_correction :
+  forall stored fill n, (List.length stored <= n)%nat ->
     sum_group_impl stored fill n = sum_group_spec stored fill n.
-Proof. exact sum_fill_correction_partial_proof. Qed.
-Print Assumptions sum_fill_correction_partial.
+Proof. exact sum_fill_correction_proof. Qed.
+Print Assumptions sum_fill_correction.
 
-Theorem sum_fill_correction_refuted :
-  exists stored fill n, (List.length stored <= n)%nat /\ sum_group_impl stored fill n <> sum_group_spec stored fill n.
-Proof. exact sum_fill_correction_refuted_proof. Qed.
-Print Assumptions sum_fill_correction_refuted.
+Theorem sum_result_fill_right :
+  forall fill n, sum_result_fill fill n = xsum (repeat fill n).
+Proof. exact sum_result_fill_right_proof. Qed.
+Print Assumptions sum_result_fill_right.
